@@ -632,7 +632,11 @@ func (w *World) Apply(o *Op) *Step {
 		case "tick":
 			w.H.MinuteTicker(vtime(o.Hours))
 		case "age":
+			// time passes for this client's lease: in memory and, consistently, in the record the last ACK saved
 			w.H.VerifAge(o.CID, time.Duration(o.Hours)*time.Hour)
+			if w.File != "" {
+				w.H.VerifAgeFile(o.CID, time.Duration(o.Hours)*time.Hour)
+			}
 			st.Skipped = true // not a model op: it only moves the implementation to another pre-state
 		case "capture":
 			w.S.Capture(net.HardwareAddr(o.MAC))
@@ -857,12 +861,10 @@ func (l *Ledger) Observe(st *Step) (out []Finding) {
 		case ip == u32(lan.Addr()) || ip == bcastOf(lan):
 			add("C11", "", "%s of the network/broadcast address %s of %s", r.typeName(), a, lan)
 		}
+		// (also for re-offers and confirmations of an address the client already held: the defect
+		// confirm-after-session-conflict is fixed, KNOWN_FINDINGS.txt)
 		if m, ok := st.hostsPre[ip]; ok && !bytes.Equal(m, o.CHAddr) {
-			known := ""
-			if claimed {
-				known = "confirm-after-session-conflict"
-			}
-			add("C11", known, "%s of %s to %x while the session tracks it for %x (claimed before=%v)", r.typeName(), a, o.CHAddr, m, claimed)
+			add("C11", "", "%s of %s to %x while the session tracks it for %x (claimed before=%v)", r.typeName(), a, o.CHAddr, m, claimed)
 		}
 		// ---- C11: uniqueness
 		if b, ok := l.acked[ip]; ok && b.cid != cid {
@@ -895,6 +897,18 @@ func (l *Ledger) Observe(st *Step) (out []Finding) {
 			}
 			if !confirmsOffer && !(hasLease && cur == ip) {
 				add("C12", "", "ACK of %s to %x confirms neither the offer of this transaction nor the current lease", a, cid)
+			}
+			// "mismatching lease ... never with ACK": the address a REQUEST names is its requested-address option
+			// (selecting, init-reboot) or, without a usable one, ciaddr (renewing, rebinding; RFC 2131 4.3.2) - whatever
+			// the IP source of the datagram says.  An ACK for another address answers a request that named a
+			// different address than the client's lease.
+			named := o.CIAddr
+			if len(o.Req) == 4 && binary.BigEndian.Uint32(o.Req) != 0 {
+				named = binary.BigEndian.Uint32(o.Req)
+			}
+			if named != ip {
+				add("C12", "", "ACK of %s to a REQUEST that names %s (requested-address option %x, ciaddr %s, IP source %s): mismatching lease acknowledged",
+					a, addr(named), o.Req, addr(o.CIAddr), addr(o.Src))
 			}
 			if srv := o.Srv; len(srv) == 4 && !bytes.Equal(srv, []byte{0, 0, 0, 0}) && !bytes.Equal(srv, l.cfg.Host.AsSlice()) {
 				add("C12", "", "ACK although the client selected server %v", net.IP(srv))
@@ -1006,9 +1020,17 @@ func (r *runner) finish() *Run {
 
 // RunOn runs ops on an existing world and returns the run and the ledger the oracles built.
 func RunOn(w *World, ops []*Op) (*Run, *Ledger) {
+	return RunOnEach(w, ops, nil)
+}
+
+// RunOnEach is RunOn with a callback after every step (the world is in the step's post-state).
+func RunOnEach(w *World, ops []*Op, each func(st *Step)) (*Run, *Ledger) {
 	r := newRunner(w)
 	for _, o := range ops {
-		r.step(o)
+		st := r.step(o)
+		if each != nil {
+			each(st)
+		}
 	}
 	return r.finish(), r.led
 }
@@ -1222,6 +1244,12 @@ func alphabet(cfg *NetCfg, view []clientView, full []bool) []*Op {
 		rn.Src = rn.CIAddr
 		rb := msg("request")
 		rb.Req = ip4(pick(view[i].lease, view[i].offer))
+		if i == 0 { // a renewal sent from the leased address that names the next address
+			rx := msg("request")
+			rx.Src = pick(view[i].lease, view[i].offer)
+			rx.CIAddr = rx.Src + 1
+			ops = append(ops, rx)
+		}
 		dc := msg("decline")
 		dc.Srv, dc.Req = host, ip4(pick(view[i].lease, view[i].offer))
 		rl := msg("release")
@@ -1370,12 +1398,23 @@ func randomHistory(c *core.Ctx, cfgIdx int, n int) []*Op {
 				if r.Intn(6) == 0 {
 					o.Req = ipOpt()
 				}
-			case 4: // renewing
+			case 4: // renewing: ciaddr and the IP source usually agree, but they are independent fields
 				o.CIAddr = known()
 				o.Src = o.CIAddr
+				switch r.Intn(6) {
+				case 0:
+					o.Src = 0
+				case 1:
+					o.Src = anyIP()
+				case 2: // sent from the lease, naming something else
+					o.CIAddr = anyIP()
+				}
 			case 5: // rebinding (library reads the source address)
 				o.CIAddr = known()
 				o.Src = 0xffffffff
+				if r.Intn(5) == 0 {
+					o.CIAddr = anyIP()
+				}
 			case 6: // rebooting
 				o.Req = ip4(known())
 			default:
@@ -1446,7 +1485,7 @@ func randomHistory(c *core.Ctx, cfgIdx int, n int) []*Op {
 
 type absOp struct {
 	role int    // 0 = A, 1 = B, 2 = C
-	kind string // D Dr Dx Rs Rx Rw Rn Rb Dc Rl cap uncap nohost hostB age t0 t5 restart
+	kind string // D Dr Dx Rs Rx Rw Rn Rn0 RnS RnX RnY Rb Rbd RbX Dc Rl cap uncap nohost taken age t0 t5 restart
 	arg  int    // restart: target configuration
 }
 
@@ -1491,10 +1530,41 @@ func (a absOp) resolve(cfgIdx int, roles []int, view []clientView, x uint32) *Op
 		o.CIAddr = pick(v.lease, v.offer)
 		o.Src = o.CIAddr
 		return o
+	case "Rn0": // renewal whose IP source is still 0.0.0.0: ciaddr names the lease
+		o := msg("request", 1)
+		o.CIAddr = pick(v.lease, v.offer)
+		return o
+	case "RnS": // renewal sent from another address than the one it names
+		o := msg("request", 1)
+		o.CIAddr = pick(v.lease, v.offer)
+		o.Src = o.CIAddr + 1
+		return o
+	case "RnX": // renewal that names ANOTHER address (ciaddr) but is sent from the leased one
+		o := msg("request", 1)
+		o.Src = pick(v.lease, v.offer)
+		o.CIAddr = o.Src + 1
+		return o
+	case "RnY": // renewal that names the contested address, sent from the leased one
+		o := msg("request", 1)
+		o.Src = pick(v.lease, v.offer)
+		o.CIAddr = x
+		return o
+	case "RbX": // rebinding (broadcast source) that names another address than the lease
+		o := msg("request", 1)
+		o.CIAddr = pick(v.lease, v.offer) + 1
+		o.Src = 0xffffffff
+		return o
+	case "Rbd": // rebinding
+		o := msg("request", 1)
+		o.CIAddr = pick(v.lease, v.offer)
+		o.Src = 0xffffffff
+		return o
 	case "Rb":
 		o := msg("request", 1)
 		o.Req = ip4(pick(v.lease, v.offer))
 		return o
+	case "taken": // the session sees the client's address (lease, else offer) in use by a stranger's MAC
+		return &Op{Kind: "host", IP: pick(v.lease, v.offer), MAC: mac(7)}
 	case "Dc":
 		o := msg("decline", 1)
 		o.Srv, o.Req = host, ip4(pick(v.lease, v.offer))
@@ -1553,6 +1623,14 @@ var skeletons = []string{
 	"A.D A.Rx A.Rs",
 	"A.D A.Dx A.Rs A.Rx B.D B.Rx",
 	"A.Dr A.Rs A.Rx A.Rb A.Rn",
+	// renewals / rebindings whose ciaddr and IP source differ: only ciaddr names the lease
+	"A.Dr A.Rs A.RnX A.Rn A.RnS A.Rn0 A.RbX",
+	"A.Dr A.Rs B.D B.Rs A.RnY B.RnX A.Rbd",
+	// the session sees a pending offer / a lease in use by another MAC (the fixed defect confirm-after-session-conflict)
+	"A.Dr A.taken A.D A.Rs A.Rn",
+	"A.Dr A.taken A.Rs A.Dx A.Rx",
+	"A.Dr A.Rs A.taken A.Rn0 A.Rb A.Rs",
+	"A.Dr A.Rs A.taken A.Rbd A.D A.Rs",
 }
 
 // restart skeleton: two clients hold leases (B captured), the server restarts under configuration %d, every
